@@ -88,14 +88,18 @@ prop("C15", level="proof",
      explanation="Purity and order independence: frames + set-level postconditions.",
      roots=["Rule.assert_applies", "C15_reapplication_same_outcome"], bounded=[_b("invariance", "bounded_purity")], trusted_base=_TB)
 prop("C16", level="other",
-     level_text="Mixed. PROVED: the LayerRule ordering guards -- based_on accepts exactly one architecture; every verb / access method raises ImproperlyConfigured exactly when layers_that has "
-                "not been called and otherwise performs exactly the inner Rule's builder step (10 contracts). BOUNDED: LayeredArchitecture (layer / containing_modules / "
-                "have_modules_with_names_matching / with_layer: the pending-layer test uses len() of a comprehension, which the engine models only up to emptiness), layers_that / are_named "
-                "(functools.partial): every builder call sequence up to the stated length is run on the real classes and compared, call by call, with an independent specification automaton "
-                "(accept / reject at the offending call, exact listing of accepted definitions).",
-     level_note="Reference automaton written from the property text; the sequences are exhaustive up to length 4 (quick) / 5 (thorough) over an alphabet that forces duplicates.",
-     technique=_BND_TECH if "_BND_TECH" in globals() else "contract-based verification of the LayerRule guards + bounded stand-in: exhaustive short call sequences on the real builders against a specification automaton",
-     explanation="Layer definition well-formedness.", roots=["LayerRule.based_on", "LayerRule.should", "LayerRule.access_layers_that"],
+     level_text="Mixed, mostly proved. PROVED (string view): LayeredArchitecture with the class invariant 'at most one layer is waiting for its modules' (established by __init__, required and "
+                "re-established by every mutating method, hence true after EVERY finite call sequence): layer(n) is rejected iff a layer is pending or n exists; containing_modules(str | list) is "
+                "rejected iff no layer is open or some name is already assigned to a layer -- whether passed as a string or inside a list -- and otherwise stores exactly the supplied names; "
+                "have_modules_with_names_matching likewise; with_layer changes nothing. LayerRule: based_on accepts exactly one architecture; every verb / access method raises "
+                "ImproperlyConfigured exactly when layers_that has not been called. BOUNDED: layers_that / are_named (functools.partial, exactly-one-subject guard) and the ORDER of the "
+                "listing (dict insertion order): every builder call sequence up to the stated length is run on the real classes and compared, call by call, with an independent specification automaton.",
+     level_note="Assumed: dict / set / list semantics as modelled by pyvc (len() of a duplicate-free comprehension = cardinality). Reference automaton written from the property text; the sequences are "
+                "exhaustive up to length 4 (quick) / 5 (thorough) over an alphabet that forces duplicates.",
+     technique="contract-based deductive verification (class invariant + per-method contracts, VCs by pyvc, z3/cvc5) + bounded stand-in: exhaustive short call sequences on the real builders against a specification automaton",
+     explanation="Layer definition well-formedness.",
+     roots=["LayeredArchitecture.__init__", "LayeredArchitecture.layer", "LayeredArchitecture.containing_modules", "LayeredArchitecture.containing_modules@list",
+            "LayeredArchitecture.have_modules_with_names_matching", "LayeredArchitecture.with_layer", "LayerRule.based_on", "LayerRule.should", "LayerRule.access_layers_that"],
      bounded=[_b("builders", "bounded_layer_definitions")], trusted_base=_TB)
 
 _BND_NOTE = "Bounded only for the pipeline-level claim; reference semantics written from the property text. "
